@@ -834,6 +834,8 @@ class Sim:
                     return
                 if len(args) != 1:
                     sim.violate("C03", "callback_arguments", f"{which} callback called with arguments {args!r} (expected exactly the task id)")
+                    sim.violate("C12", "callback_arguments", f"{which} callback whose body raised a TypeError was called again, with arguments {args!r}: "
+                                "the exception of a user callback is the task's outcome, not a reason to call it differently")
                     return
                 trec = sim._cb_enter(owner, which, args[0])
                 try:
